@@ -5,6 +5,11 @@
 pub enum QueryError { Other }
 pub struct Planner { pub resets: usize }
 impl Planner { pub fn reset(&mut self) { self.resets += 1; } }
+// stand-ins: a plan node is its nullability and the value range the range analysis reports for it
+pub struct Plan { pub nullable: bool, pub range: Option<(i64, i64)> }
+impl Plan { pub fn is_nullable(&self) -> bool { self.nullable } }
+pub fn encoding_range(p: &&Plan, _: &Planner) -> Option<(i64, i64)> { p.range }
+macro_rules! debug { ($($t:tt)*) => {}; }
 include!("bits.rs");
 
 #[cfg(kani)]
@@ -43,6 +48,44 @@ mod proofs {
             Err(_) => { assert!(false, "[no-error] field accounting never fails"); }
         }
     }
+    fn any_plan() -> Plan {
+        let (min, max): (i64, i64) = (kani::any(), kani::any());
+        kani::assume(min <= max);
+        Plan { nullable: kani::any(), range: Some((min, max)) }
+    }
+    // several GROUP BY columns: for every value range the range analysis can report, the field either is not bit packed or
+    // is wide enough for every encoded value (v - min, or v - min + 1 with 0 for NULL, or v itself) - and nothing overflows
+    #[kani::proof]
+    fn field_span_covers_range() {
+        let plan = any_plan();
+        let (lo, hi) = plan.range.unwrap();
+        let mut planner = Planner { resets: 0 };
+        kani::cover!(field_range(&plan, &mut planner).is_some() && lo < 0, "vacuity: a negative range is accepted");
+        if let Some((min, max)) = field_range(&plan, &mut planner) {
+            assert!(min == lo && max == hi, "[range-unchanged] an accepted range is the reported one");
+            let (subtract_offset, adjusted_max) = field_span(&plan, min, max);
+            let span = max as i128 - min as i128;
+            if plan.nullable { assert!(adjusted_max as i128 >= span + 1, "[nullable-span] NULL plus every value of the range get distinct field values"); }
+            else if subtract_offset { assert!(adjusted_max as i128 >= span, "[offset-span] every value of the range minus the offset fits the field"); }
+            else { assert!(min >= 0 && adjusted_max >= max, "[plain-span] without offset the values themselves fit the field"); }
+        }
+    }
+    // one GROUP BY column: cardinality and offset derived from the range cover every value, without overflow
+    #[kani::proof]
+    fn single_key_span_covers_range() {
+        let plan = any_plan();
+        let mut planner = Planner { resets: 0 };
+        let (max_cardinality, offset, range) = single_key_span(&plan, &mut planner);
+        match range {
+            Some((min, max)) => {
+                let off = match offset { Some(o) => o as i128, None => 0 };
+                assert!(min as i128 + off >= 0 && max as i128 + off <= max_cardinality as i128, "[cardinality-covers] every value plus the offset lies in 0..=max_cardinality");
+                assert!(!plan.nullable || min as i128 + off >= 1 || offset == Some(0), "[null-slot-free] with an offset chosen for a nullable column, 0 stays free for NULL");
+            }
+            None => assert!(max_cardinality == 1 << 62 && offset.is_none(), "[unknown-range] an unknown range means unknown cardinality"),
+        }
+    }
+
     #[kani::proof]
     fn vx_canary() {
         let x: u8 = kani::any();
